@@ -72,6 +72,9 @@ SCHEMES = [
     {'names': ['TIME1', 'X_2', 'LONGNAME12'], 'units': ['FEET', 'US/F', '%'], 'longs': ['Elapsed time', 'x', 'Long-name 12']},
     # ordinary numeric channels that are merely *called* TIME and DATE (only TIME.HHMMSS and DATE.D are time / date columns)
     {'names': ['DEPT', 'TIME', 'DATE'], 'units': ['m', 'S', 'd'], 'longs': ['Depth', 'Elapsed time', 'Day count']},
+    # the two units TotalDepth's LAS reader has a LAS-to-LIS translation for, on the index channel and elsewhere
+    {'names': ['DEPT', 'TENS', 'WF'], 'units': ['F', 'F', 'mts'], 'longs': ['Depth', 'Tension', 'Wave']},
+    {'names': ['DEPTH', 'WF', 'TENS'], 'units': ['mts', 'mts', 'F'], 'longs': ['Depth', 'Wave', 'Tension']},
 ]
 # index channel specs used when there is more than one channel (dtype, dims); pattern is always the ramp 'idx'
 XSPECS = [('f8', (1,)), ('i4', (1,)), ('f4', (3,)), ('u2', (2, 2))]
@@ -100,7 +103,9 @@ def alphabet(dt):
     if dt[0] == 'f':
         fi = np.finfo(np.dtype(dt))
         return [0.0, 1.5, -1.5, 1e-4, -1e-4, 123456.789, -123456.789, 1e15, -1e15,
-                float(fi.max), float(fi.min), float(fi.tiny), -0.0]
+                float(fi.max), float(fi.min), float(fi.tiny), -0.0,
+                # neighbours of the LAS NULL value -999.25: values of the log, never absent ones
+                -999.251, -999.245, -999.0]
     ii = np.iinfo(np.dtype(dt))
     lo, hi = max(int(ii.min), -TWO53), min(int(ii.max), TWO53)
     out = []
@@ -366,7 +371,13 @@ def judge_text(case, text, exact, label, heading_valid=True):
             ci = exp_idx[c]
             dt = case['chs'][ci][0]
             data = np.ma.getdata(ch.array).reshape(frames, -1)
+            mask = np.ma.getmaskarray(ch.array).reshape(frames, -1)
             for r in range(frames):
+                # a value is absent only when it *is* the file's NULL (-999.25 in every generated header)
+                if mask[r][0] and not data[r][0] == -999.25:
+                    add({'kind': 'value_masked', 'via': 'LASRead', 'dtype': dt[0]},
+                        'frame %d channel %s read back as absent (masked) but holds %r, not the NULL value -999.25'
+                        % (r, case['names'][ci], data[r][0]))
                 unit = units_of_tokens[r][c]
                 if unit is None:
                     continue
@@ -538,7 +549,7 @@ def cases_of(shard, tier):
         frames = [1, 3] if quick else FRAMES
         pairs = [(16, '.3f'), (8, '.0f'), (1, '.6f')] if quick else list(itertools.product(WIDTHS, FORMATS))
         for pat in pats:
-            schemes = [0, 1] if pat == 'idx' else [0]
+            schemes = [0, 1, 3, 4] if pat == 'idx' else [0]
             for scheme in schemes:
                 names = SCHEMES[scheme]['names'][:1]
                 subs = [[], [UNKNOWN]] if quick else [[], [names[0]], [UNKNOWN]]
@@ -550,7 +561,7 @@ def cases_of(shard, tier):
         frames = [2] if quick else FRAMES
         pairs = [(8, '.3f'), (1, '.0f')] if quick else PAIRS5
         for pi, pat in enumerate(pats):
-            schemes = [0, 1, 2] if pi == 0 else [0]
+            schemes = [0, 1, 2, 3, 4] if pi == 0 else [0]
             for scheme in schemes:
                 subs = _subsets(SCHEMES[scheme]['names'][:2])
                 for fr, method, sub, (fw, fmt) in itertools.product(frames, METHODS, subs, pairs):
@@ -564,7 +575,7 @@ def cases_of(shard, tier):
         pairs = [(8, '.3f')] if quick else [(16, '.3f'), (8, '.0f'), (1, '.6f')]
         for pat in pats:
             pat3 = (pat + 2) % n_rot(dt3)
-            for scheme in ([0, 2] if quick else [0, 1, 2]):
+            for scheme in ([0, 2, 3] if quick else [0, 1, 2, 3, 4]):
                 subs = _subsets(SCHEMES[scheme]['names'][:3])
                 for fr, method, sub, (fw, fmt) in itertools.product(frames, METHODS, subs, pairs):
                     yield _mk(scheme, [(xdt, xdims, 'idx'), (dt, dims, pat), (dt3, dims3, pat3)], fr, method, sub, fw, fmt)
